@@ -22,6 +22,8 @@ static bool g_macro_init = false;   // instances, allocators and endpoints come 
 // ------------------------------------------------------------------ wires
 struct Wire { Bytes data; size_t rpos = 0; };
 static size_t g_lend = 0;   // window of the getbuffer extension the channel sources implement (0 = plain sources)
+static void (*g_src_intruder)(Ctx *) = nullptr; static int64_t g_src_intrude_at = -1, g_src_intrude_arg = 0; static uint64_t g_src_calls = 0;
+static inline void src_seam(Ctx *c) { if (g_src_intruder && (int64_t)g_src_calls++ == g_src_intrude_at) { void (*f)(Ctx *) = g_src_intruder; g_src_intruder = nullptr; f(c); } }
 struct WireSrc {
     Ctx *c = nullptr; Wire *w = nullptr; bool octet = false;
     size_t lend_win = 0; std::unique_ptr<GuardedBlock> lend_blk;   // a source may lend its own receive window: then the plumbing moves whole chunks
@@ -31,6 +33,7 @@ struct WireSrc {
     uint64_t calls = 0;
     ssize_t chunk(void *buf, size_t n) {
         c->step_budget(); ++calls;
+        src_seam(c);   // a second instance may receive and serve a frame of its own while this one waits in its source
         ssize_t rv;
         if (err_pos >= 0 && (int64_t)w->rpos >= err_pos) { err_pos = -1; err_fired = true; rv = -err_code; c->faults_fired++; COUNT("fault.channel_error_mid_stream"); }
         else if (w->rpos >= w->data.size()) rv = -ENODATA;
@@ -323,6 +326,33 @@ static void second_instance_emits(Ctx *c) {
     if (rc < 0 || out.data != want) c->fail("intruder.emit", "a frame (emitter family %d) emitted by a second instance (%s, mem%d) while another instance's sink call was pending came out wrong (rc %d, %zu octets on the wire, %zu expected)", (int)((arg >> 5) % 6), serial ? "serial" : "tcp", mt, rc, out.data.size(), want.size());
 }
 
+// the source-side counterpart: while an instance waits in its channel source, a second instance (other wires, other allocator, other memory)
+// receives a read request, serves it and frees the frame
+static Served serve(Node &N, size_t payload_avail);
+static void second_instance_serves(Ctx *c) {
+    const int64_t arg = g_src_intrude_arg; const bool serial = (arg & 1) != 0; const int mt = (arg & 2) ? 8 : 16;
+    Backend *outer = g_be;
+    {
+        Wire in, out;
+        Node Y(*c, &in, &out, serial, mt, sizeof(RPFrame) + 64, (arg & 8) != 0, (arg & 4) != 0, false);
+        Frame rq; rq.type = (arg & 16) ? T_WREQ : T_RREQ; rq.options = (serial ? OPT_HDCRC : 0) | (mt == 16 ? OPT_WS16 : 0); rq.seq = (uint16_t)(arg >> 5); rq.addr = (uint32_t)(arg * 40503u); rq.bsize = 3;
+        if (rq.type == T_WREQ) { rq.payload = {0xc0, 0x01, 0xdb, 0x02, 0x03, 0xdd}; rq.payload.resize(mt == 16 ? 6 : 3); if (serial) rq.options |= OPT_PLCRC; }
+        in.data = frame_on(serial, encode(rq));
+        Y.be.salt = (uint64_t)arg;
+        Served S = serve(Y, rq.payload.size());
+        COUNT("probe.second_instance_served_during_a_source_call");
+        bool ok = S.recv_returned && S.proc_returned && S.rc_recv >= 0 && S.rc_proc >= 0 && S.error_id == 0 && S.be_calls == 1 && S.live_after == 0 && S.replies.size() == 1 && S.calls[0].addr == rq.addr && S.calls[0].n == 3;
+        if (ok) {
+            Bytes img = rq.type == T_RREQ ? S.calls[0].data : Bytes();
+            if (rq.type == T_WREQ && S.calls[0].data != rq.payload) ok = false;
+            Bytes want = encode(response_for(rq, RC_ACK, 0, img, serial, mt));
+            if (S.replies[0] != want) ok = false;
+        }
+        if (!ok) c->fail("intruder.serve", "a %s request received and served by a second instance (%s, mem%d) while another instance's source call was pending went wrong (recv %d, process %d, error id %d, %zu accesses, %zu replies)", rq.type == T_WREQ ? "write" : "read", serial ? "serial" : "tcp", mt, S.rc_recv, S.rc_proc, S.error_id, S.be_calls, S.replies.size());
+    }
+    g_be = outer;
+}
+
 static Frame meta_frame(int meta, bool serial) { Frame m; m.type = T_META; m.meta = meta; m.options = serial ? OPT_HDCRC : 0; return m; }
 static std::string hex_short(const Bytes &b) { std::string s = hexs(b); if (s.size() > 96) s = s.substr(0, 96) + ".."; return s; }
 
@@ -425,6 +455,7 @@ struct RegpHarness : Harness {
         if (bigblock) { static const int64_t BB[] = {65535, 65536, 65537, 65552, 70000, 131072, 131080, 196700}; block = (int64_t)sizeof(RPFrame) + BB[r.below(8)]; }
         p["block"] = (long long)block; if (r.chance(1, 3)) p["macro_init"] = 1;
         if (r.chance(1, 4)) { Json ij = Json::arr(); ij.push((long long)(r.chance(1, 2) ? r.below(8) : r.below(200))); ij.push((long long)r.below(1 << 20)); p["intrude"] = ij; }
+        if (r.chance(1, 5)) { Json ij = Json::arr(); ij.push((long long)(r.chance(1, 2) ? r.below(8) : r.below(120))); ij.push((long long)r.below(1 << 20)); p["sintrude"] = ij; }   // a second instance serves a request while the first waits in its source
         if (r.chance(1, 3)) { static const int F[] = {0x00, 0xff, 0xff, 0xa5, 0x01}; p["fill"] = F[r.below(5)]; }
         if (r.chance(1, 4)) p["scrub"] = r.chance(1, 2) ? 0xff : 0x00;
         if (r.chance(1, 4)) p["stock_heap"] = 1;
@@ -581,7 +612,8 @@ struct RegpHarness : Harness {
     static Cfg cfg_of(const Json &plan) {
         g_macro_init = plan.geti("macro_init") != 0; g_bind_with_macros = false; g_free_via_block = plan.geti("bfree") != 0;
         g_stock_heap = plan.geti("stock_heap") != 0 && plan.geti("recycle") == 0; g_fail_next_malloc = false;
-        g_snk_calls = 0; g_snk_intruder = nullptr; g_snk_intrude_at = -1;
+        g_snk_calls = 0; g_snk_intruder = nullptr; g_snk_intrude_at = -1; g_src_calls = 0; g_src_intruder = nullptr; g_src_intrude_at = -1;
+        if (plan.has("sintrude")) { const Json &ij = plan.get("sintrude"); g_src_intrude_at = ij.ati(0, 0); if (g_src_intrude_at < 0 || g_src_intrude_at > 100000) g_src_intrude_at = 0; g_src_intrude_arg = ij.ati(1, 0) & 0xfffff; g_src_intruder = second_instance_serves; }
         if (plan.has("intrude")) { const Json &ij = plan.get("intrude"); g_snk_intrude_at = ij.ati(0, 0); if (g_snk_intrude_at < 0 || g_snk_intrude_at > 100000) g_snk_intrude_at = 0; g_snk_intrude_arg = ij.ati(1, 0) & 0xfffff; g_snk_intruder = second_instance_emits; }
         g_block_fill = plan.has("fill") ? (int)(plan.geti("fill") & 0xff) : 0xbe; g_block_scrub = plan.has("scrub") ? (int)(plan.geti("scrub") & 0xff) : -1;
         if (g_block_fill == 0xff || g_block_scrub == 0xff) COUNT("probe.allocator_blocks_hold_0xff");
